@@ -808,7 +808,8 @@ class J1939_22:
         dest_address = pgn.pdu_specific # may be Address.GLOBAL
 
         # iterate all CAs to check if we have to handle this destination address
-        if dest_address != ParameterGroupNumber.Address.GLOBAL:
+        # (a PDU2 identifier carries a group extension, not a destination address: always broadcast)
+        if pgn.is_pdu1_format and dest_address != ParameterGroupNumber.Address.GLOBAL:
             if not self.__ecu_is_message_acceptable(dest_address): # simple peer-to-peer reception without adding a controller-application
                 reject = True
                 for ca in self._cas:
